@@ -1218,10 +1218,13 @@ impl Channel {
                 counterparty_htlc_sigs.to_vec(),
             );
             self.enforcement_state.next_holder_commit_info = Some((info2, counterparty_signatures));
-        }
 
-        trace_enforcement_state!(self);
-        self.persist()?;
+            trace_enforcement_state!(self);
+            self.persist()?;
+        }
+        // a re-validation of another commitment changes nothing: nothing to persist, so that a
+        // combined request (validate, then revoke or activate) whose second step is refused
+        // leaves the store as it was
 
         Ok(())
     }
@@ -2520,10 +2523,13 @@ impl Channel {
                 counterparty_htlc_sigs.to_vec(),
             );
             self.enforcement_state.next_holder_commit_info = Some((info2, counterparty_signatures));
-        }
 
-        trace_enforcement_state!(self);
-        self.persist()?;
+            trace_enforcement_state!(self);
+            self.persist()?;
+        }
+        // a re-validation of another commitment changes nothing: nothing to persist, so that a
+        // combined request (validate, then revoke or activate) whose second step is refused
+        // leaves the store as it was
 
         Ok(())
     }
